@@ -188,7 +188,7 @@ def generate_is_empty(_predicate: IsEmptyPredicate) -> Iterator:
 def generate_lt(predicate: LtPredicate) -> Iterator:
     match predicate.v:
         case datetime() as dt:
-            yield from (dt - timedelta(days=days) for days in range(0, 5))
+            yield from (dt - timedelta(days=days) for days in range(1, 6))
         case float():
             yield from random_floats(upper=math.nextafter(predicate.v, -math.inf))
         case int():
